@@ -242,7 +242,7 @@ def replay(pid, r, fails):
     build, cap = r["stage"]
     base = os.path.join(SCRATCH, "%s_%s_cap%d" % (pid, build, cap))
     sdir, tdir = os.path.join(base, "stage"), os.path.join(base, "target")
-    outdir = os.path.join(VERIF, "replays", pid)
+    outdir = os.path.join(os.environ.get("VERIF_REPLAY_DIR", os.path.join(VERIF, "replays")), pid)
     os.makedirs(outdir, exist_ok=True)
     custom = h.get("replay")
     if custom:
@@ -363,8 +363,9 @@ def write_evidence(pid, tier, seed, results, viol_out, known_hits, inconclusive,
         "wall_s": round(wall, 1),
         "violations": len(viol_out),
     }
-    os.makedirs(os.path.join(VERIF, "evidence"), exist_ok=True)
-    json.dump(ev, open(os.path.join(VERIF, "evidence", pid + ".json"), "w"), indent=1)
+    evdir = os.environ.get("VERIF_EVIDENCE_DIR", os.path.join(VERIF, "evidence"))
+    os.makedirs(evdir, exist_ok=True)
+    json.dump(ev, open(os.path.join(evdir, pid + ".json"), "w"), indent=1)
 
 def main():
     args = sys.argv[1:]
